@@ -139,9 +139,10 @@ def main(argv=None):
     for line in known_lines:
         print(line)
     if errors:
-        for e in errors[:5]:
+        for n_, e in enumerate(errors[:5]):
             print('HARNESS-ERROR property=%s %s' % (pid, e.strip().splitlines()[-1] if e.strip() else e))
-            sys.stderr.write(e + '\n')
+            if n_ == 0:
+                sys.stderr.write(e + '\n')
         return 2
     for kind, count, msg, path in viol_lines[:12]:
         print('  %s: kind=%s cases=%d first: %s' % (pid, kind, count, msg))
